@@ -422,3 +422,32 @@ func (g *Gen) Targeted() (Op, Op) {
 	}
 	return pre, Op{Op: "decl", Name: name, Variant: g.pick([]string{"declare", "export", "readonly"}), App: true, Rhs: &Rhs{Kind: "str", S: g.pick(values)}}
 }
+
+// Undo returns a parent operation that establishes a piece of state and the
+// child operation that removes exactly that state (function, alias, variable,
+// option, directory stack entry, positional parameter); the child operation is
+// meant to be the FIRST command of the child.
+func (g *Gen) Undo(k int) (Op, Op) {
+	switch k % 8 {
+	case 0:
+		return Op{Op: "funcdef", Name: "f", BodyN: 1 + g.R.IntN(3)}, Op{Op: "unsetf", Name: "f"}
+	case 1:
+		return Op{Op: "funcdef", Name: "g", BodyN: 1 + g.R.IntN(3)}, Op{Op: "unset", Name: "g"}
+	case 2:
+		return Op{Op: "alias", Name: "ll", Src: "echo hi"}, Op{Op: "unalias", Name: "ll"}
+	case 3:
+		name := g.pick(varNames)
+		if g.p(2) {
+			return Op{Op: "assign", Name: name, Rhs: &Rhs{Kind: "str", S: "x"}}, Op{Op: "unset", Name: name}
+		}
+		return Op{Op: "assign", Name: name, Rhs: &Rhs{Kind: "arr", Arr: []ArrElem{{V: "x"}, {V: "y"}}}}, Op{Op: "unsetall", Name: name}
+	case 4:
+		o := safeOpts[g.R.IntN(len(safeOpts))]
+		return Op{Op: "setopt", Opt: o, On: true}, Op{Op: "setopt", Opt: o, On: false}
+	case 5:
+		return Op{Op: "pushd", Path: g.Dirs[1]}, Op{Op: "popd"}
+	case 6:
+		return Op{Op: "setparams", Args: []string{"p", "q"}}, Op{Op: "shift", N: 1}
+	}
+	return Op{Op: "cd", Path: g.Dirs[2]}, Op{Op: "cd", Path: g.Dirs[1]}
+}
